@@ -46,111 +46,179 @@ let rec z_of_int n = if n = 0 then Z0 else if n > 0 then Zpos (pos_of_int n) els
 and pos_of_int n = if n = 1 then XH else if n land 1 = 0 then XO (pos_of_int (n lsr 1)) else XI (pos_of_int (n lsr 1))
 let rec nat_of_int n = if n <= 0 then O else S (nat_of_int (n - 1))
 
-(* ---- untrusted search for a global order: depth-first over the actions in stamp order, an action may be overtaken by at
-   most `dmax` later ones (the recorder's stamps are taken right after each operation, so the true order is a bounded
-   displacement of the stamp order); every step is RootQR.rq_try (the model's own step function).  An enabled observation is
-   always taken first (it changes nothing but its thread's program point).  The order found is then executed by RootQR.replay
-   in strict mode, which is the result reported. *)
-let search (show : 'st -> string) (try_ : 'st -> ract -> 'st option) (s0 : 'st) (acts : ract array) (k : int) (dmax : int) (budget : int) : int list * bool =
+(* ---- untrusted search for a global order (a linearisation of the recording accepted by the model).
+   Every action has an interval in which its operation took place: from the stamp of its thread's previous event to its own
+   stamp (the recorder takes a stamp right AFTER each operation, from one global counter; a hidden step lies between the two
+   events around it).  Hence b precedes a whenever hi(b) < lo(a); an action is admissible when it is the next one of its
+   thread and no action that is not yet done ends before it starts.  Depth-first search over admissible actions, every step
+   being RootQR.rq_try (the model's own step function):
+   - an enabled observation is taken first, without alternative (it changes nothing but its thread's program point);
+   - enabled writes are tried in stamp order, one that the first choice would disable (and that does not disable it) first;
+   - dead end (nothing admissible is enabled): repair by re-insertion - a blocked action whose stamp lags far behind its
+     operation belongs earlier: go back to the most recent state of the current order in which it was enabled and take it
+     there - then chronological backtracking; states (set of done actions, shared words) proved dead are not entered again;
+   - a pthread_create starts the recorded pool thread that shows up first among those not yet started.
+   The order found is then executed by RootQR.replay in strict mode, which is the result reported. *)
+let search (fp : 'st -> int) (show : 'st -> string) (compact : 'st -> 'st) (try_ : 'st -> ract -> 'st option) (s0 : 'st) (acts0 : ract array) (keys : int array)
+    (workers : (int * int) list) (budget : int) : ract list * bool =
+  let acts = Array.copy acts0 in
   let n = Array.length acts in
   let tid_of = Array.map (fun a -> int_of_z a.r_tid) acts in
-  (* flexible actions (hidden steps, the first event of a thread: their place in the stamp order is only a lower bound) do
-     not hold the head of the order back *)
-  let flex = Array.map (fun a -> int_of_z a.r_code <> 0 || int_of_z a.r_word = 1) acts in
   let prev = Array.make n (-1) in
   let last = Hashtbl.create 64 in
   for i = 0 to n - 1 do
     (match Hashtbl.find_opt last tid_of.(i) with Some j -> prev.(i) <- j | None -> ());
     Hashtbl.replace last tid_of.(i) i
   done;
+  let tids = Hashtbl.create 64 in
+  let dense = Array.map (fun t -> match Hashtbl.find_opt tids t with Some d -> d | None -> let d = Hashtbl.length tids in Hashtbl.add tids t d; d) tid_of in
+  let nt = Hashtbl.length tids in
+  let nxt = Array.make n (-1) in
+  Array.iteri (fun i p -> if p >= 0 then nxt.(p) <- i) prev;
+  let cur = Array.make (max nt 1) (-1) in
+  for i = n - 1 downto 0 do if prev.(i) < 0 then cur.(dense.(i)) <- i done;
+  let hidden i = int_of_z acts.(i).r_code <> 0 in
+  let is_create i = int_of_z acts.(i).r_code = 4 in
+  let hi = Array.init n (fun i -> if hidden i then (if nxt.(i) >= 0 then keys.(nxt.(i)) else max_int) else keys.(i)) in
+  (* a thread's first action: it is not known when the thread started; its stamp is assumed to lag by at most 1000 stamps *)
+  let lo = Array.init n (fun i -> if prev.(i) >= 0 then keys.(prev.(i)) else keys.(i) - 4000) in
+  let byhi = Array.init n (fun i -> i) in
+  Array.stable_sort (fun i j -> compare hi.(i) hi.(j)) byhi;
+  (* actions that commute with every action of the other threads: observations and the harness's marks (call, return,
+     begin and end of a work item), which move only their thread's program point / append to the run history *)
+  let indep = Array.init n (fun i -> acts.(i).r_obs || (int_of_z acts.(i).r_code = 0 && (let k = int_of_z acts.(i).r_ev.ek in k >= 100 && k <= 103))) in
+  let zob = Array.init n (fun i -> Hashtbl.hash (i * 2654435761 + 12345) lxor (Hashtbl.hash (i + 77) lsl 30)) in
+  (* recorded pool threads: (tid, key of the first event), in order of first event *)
+  let wk = Array.of_list (List.sort (fun (_, a) (_, b) -> compare a b) workers) in
+  let started = Array.make (Array.length wk) false in
+  let slot_of = Hashtbl.create 64 in
+  Array.iteri (fun k (t, _) -> Hashtbl.replace slot_of t k) wk;
+  let wslot = Array.init n (fun i -> if prev.(i) < 0 then (match Hashtbl.find_opt slot_of tid_of.(i) with Some k -> k | None -> -1) else -1) in
+  let fresh = ref 0 in
   let donef = Array.make n false in
-  let stack = ref [] in           (* (state before, head before, lingering before, chosen, alternatives) *)
-  let state = ref s0 and head = ref 0 and ndone = ref 0 and steps = ref 0 and lingering = ref [] in
+  (* stack entry: state before, head pointer before, set hash before, chosen action, worker slot it started, alternatives *)
+  let stack = ref [] in
+  let state = ref s0 and headp = ref 0 and ndone = ref 0 and steps = ref 0 and sethash = ref 0 in
   let order = ref [] in
   let best = ref 0 and best_order = ref [] in
-  let result = ref None and nback = ref 0 in
-  let advance () =
-    while !head < n && (donef.(!head) || flex.(!head)) do
-      if not donef.(!head) then lingering := !head :: !lingering;
-      incr head
-    done in
-  let apply i s' =
-    donef.(i) <- true; incr ndone; state := s'; order := i :: !order;
-    lingering := List.filter (fun j -> j <> i) !lingering;
+  let result = ref None and njump = ref 0 and nback = ref 0 in
+  let dead = Hashtbl.create 4096 in
+  let advance () = while !headp < n && donef.(byhi.(!headp)) do incr headp done in
+  let minhi () = if !headp < n then hi.(byhi.(!headp)) else max_int in
+  (* the action as it is tried now: a create names the pool thread it starts *)
+  let slot_now () = let r = ref (-1) in (try Array.iteri (fun k st -> if not st then begin r := k; raise Exit end) started with Exit -> ()); !r in
+  let instance i =
+    if is_create i then begin
+      let k = slot_now () in
+      let target = if k >= 0 then fst wk.(k) else (incr fresh; 1000000 + !fresh) in
+      ({ (acts.(i)) with r_arg = z_of_int target }, k)
+    end else (acts.(i), -1) in
+  let ntry = ref 0 and ttry = ref 0.0 in
+  let try_ s a = incr ntry; let t0 = Sys.time () in let r = try_ s a in ttry := !ttry +. (Sys.time () -. t0); r in
+  let tryi s i = let (a, k) = instance i in match try_ s a with Some s' -> Some (a, k, s') | None -> None in
+  let apply i (a, k, s') =
+    acts.(i) <- a; if k >= 0 then started.(k) <- true;
+    donef.(i) <- true; incr ndone; state := (if !ndone land 63 = 0 then compact s' else s'); order := (i, a) :: !order; cur.(dense.(i)) <- nxt.(i); sethash := !sethash lxor zob.(i);
     advance ();
     if !ndone > !best then begin best := !ndone; best_order := !order end in
+  let push i k alts = stack := (!state, !headp, !sethash, i, k, alts) :: !stack in
+  let undo_top () =
+    match !stack with
+    | [] -> ()
+    | (s, h, sh, i, k, _) :: rest ->
+      donef.(i) <- false; decr ndone; state := s; headp := h; sethash := sh; order := List.tl !order; cur.(dense.(i)) <- i;
+      if k >= 0 then started.(k) <- false;
+      stack := rest in
+  let keyof () = !sethash lxor (fp !state * 1000003) in
   let rec backtrack () =
     match !stack with
     | [] -> result := Some false
-    | (s, h, lg, i, alts) :: rest ->
-      donef.(i) <- false; decr ndone; state := s; head := h; lingering := lg; order := List.tl !order;
+    | (_, _, _, _, _, alts) :: _ ->
+      undo_top ();
       (match alts with
-       | [] -> stack := rest; backtrack ()
-       | (j, sj) :: more -> stack := (s, h, lg, j, more) :: rest; apply j sj) in
+       | [] -> Hashtbl.replace dead (keyof ()) (); backtrack ()
+       | j :: more ->
+         (match tryi !state j with
+          | Some ((_, k, _) as r) -> push j k more; apply j r
+          | None -> (* cannot happen: it was enabled in this state *) stack := (!state, !headp, !sethash, j, -1, more) :: !stack;
+            donef.(j) <- true; incr ndone; order := (j, acts.(j)) :: !order; backtrack ())) in
+  let tried = Hashtbl.create 64 in
+  let backjump blocked =
+    let rec go = function
+      | [] -> false
+      | b :: more ->
+        let limit = (match Hashtbl.find_opt tried b with Some d -> d | None -> max_int) in
+        let rec walk st depth scanned =
+          match st with
+          | [] -> None
+          | (s, h, _, i, _, _) :: rest ->
+            if scanned > 8000 || i = prev.(b) then None
+            else if depth < limit && lo.(b) <= (if h < n then hi.(byhi.(h)) else max_int)
+                    && (match try_ s (fst (instance b)) with Some _ -> true | None -> false) then Some depth
+            else walk rest (depth - 1) (scanned + 1) in
+        (match walk !stack (!ndone - 1) 0 with
+         | Some depth ->
+           Hashtbl.replace tried b depth;
+           let chosen = ref (-1) and calts = ref [] in
+           while !ndone > depth do
+             (match !stack with (_, _, _, i, _, alts) :: _ -> chosen := i; calts := alts | [] -> ());
+             undo_top ()
+           done;
+           (match tryi !state b with
+            | Some ((_, k, _) as r) ->
+              push b k (!chosen :: List.filter (fun j -> j <> b) !calts); apply b r; incr njump; true
+            | None -> false)
+         | None -> go more) in
+    !njump < 20000 && go blocked in
   advance ();
   while !result = None do
     if !ndone = n then result := Some true
     else begin
       incr steps;
       if !steps > budget then result := Some false
+      else if Hashtbl.mem dead (keyof ()) then backtrack ()
       else begin
-        let ready i = (not donef.(i)) && (prev.(i) < 0 || donef.(prev.(i))) in
-        let cands = ref (List.filter ready (List.rev !lingering)) and cnt = ref 0 and i = ref !head in
-        cands := List.rev !cands;
-        while !i < n && !i < !head + dmax && !cnt < k do
-          if ready !i then begin cands := !i :: !cands; if not flex.(!i) then incr cnt end;
-          incr i
+        let mh = minhi () in
+        let cands = ref [] in
+        for d = nt - 1 downto 0 do
+          let i = cur.(d) in
+          if i >= 0 && lo.(i) <= mh && (wslot.(i) < 0 || started.(wslot.(i))) then cands := i :: !cands
         done;
-        let enabled = List.filter_map (fun i -> match try_ !state acts.(i) with Some s' -> Some (i, s') | None -> None) (List.rev !cands) in
-        let obs = List.filter (fun (i, _) -> acts.(i).r_obs) enabled in
-        (* an enabled action that the first choice would disable, and that does not disable the first choice, goes before it
-           (e.g. a blind store stamped just before a compare-exchange that really preceded it) *)
-        let enabled =
-          let rec refine fuel cur rest_all =
-            if fuel = 0 then cur else
-            let (i1, s1) = cur in
-            match List.find_opt (fun (j, sj) -> j <> i1 && try_ s1 acts.(j) = None && try_ sj acts.(i1) <> None) rest_all with
-            | Some c -> refine (fuel - 1) c rest_all
-            | None -> cur in
-          match enabled with
-          | [] -> []
-          | c1 :: _ when obs = [] ->
-            let (ib, sb) = refine (List.length enabled) c1 enabled in
-            (ib, sb) :: List.filter (fun (j, _) -> j <> ib) enabled
-          | _ -> enabled in
+        let cands = List.sort (fun i j -> compare (hi.(i), i) (hi.(j), j)) !cands in
+        let enabled = List.filter_map (fun i -> match tryi !state i with Some r -> Some (i, r) | None -> None) cands in
         (match Sys.getenv_opt "RQ_FROM" with
          | Some f when !ndone >= int_of_string f && !ndone < int_of_string f + 60 ->
-           Printf.eprintf "step done=%d head=%d(tid %d id %d) state %s | enabled: %s\n" !ndone !head tid_of.(!head) (int_of_z acts.(!head).r_id) (show !state)
-             (String.concat " " (List.map (fun (i, _) -> Printf.sprintf "%d(t%d,id%d%s)" i tid_of.(i) (int_of_z acts.(i).r_id) (if acts.(i).r_obs then ",obs" else "")) enabled))
+           Printf.eprintf "step done=%d minhi=%d state %s | cands: %s | enabled: %s\n" !ndone mh (show !state)
+             (String.concat " " (List.map (fun i -> Printf.sprintf "%d(t%d,id%d,k%d)" i tid_of.(i) (int_of_z acts.(i).r_id) keys.(i)) cands))
+             (String.concat " " (List.map (fun (i, _) -> Printf.sprintf "%d%s" i (if acts.(i).r_obs then "o" else "")) enabled))
          | _ -> ());
-        match obs, enabled with
-        | (i, s') :: _, _ -> stack := (!state, !head, !lingering, i, []) :: !stack; apply i s'
-        | [], (i, s') :: alts -> stack := (!state, !head, !lingering, i, alts) :: !stack; apply i s'
-        | [], [] ->
-          (* nothing enabled nearby: look further ahead for ONE action that unblocks one of the blocked nearby actions (a thread
-             that was preempted between its operation and the recorder's stamp) *)
-          let blocked = List.rev !cands in
-          let rescue = ref None and j = ref !head in
-          while !rescue = None && !j < n && !j < !head + 2048 do
-            if (not donef.(!j)) && (prev.(!j) < 0 || donef.(prev.(!j))) && not (List.mem !j blocked) then begin
-              match try_ !state acts.(!j) with
-              | Some sj -> if List.exists (fun b -> try_ sj acts.(b) <> None) blocked then rescue := Some (!j, sj)
-              | None -> ()
-            end;
-            incr j
-          done;
-          (match !rescue with
-           | Some (x, sx) -> stack := (!state, !head, !lingering, x, []) :: !stack; apply x sx
-           | None ->
-             if !nback < 3 && Sys.getenv_opt "RQ_DEBUG" <> None then begin
-               Printf.eprintf "dead end %d: done %d head %d (tid %d id %d)\n" !nback !ndone !head tid_of.(!head) (int_of_z acts.(!head).r_id);
-               List.iter (fun i -> Printf.eprintf "   ready: pos %d tid %d id %d code %d\n" i tid_of.(i) (int_of_z acts.(i).r_id) (int_of_z acts.(i).r_code)) blocked
+        match List.find_opt (fun (i, _) -> indep.(i)) enabled with
+        | Some (i, ((_, k, _) as r)) -> push i k []; apply i r
+        | None ->
+          (match enabled with
+           | (i1, r1) :: _ ->
+             (* an enabled action that the first choice would disable, and that does not disable the first choice, goes first
+                (e.g. a blind store stamped just before a compare-exchange that really preceded it) *)
+             let rec refine fuel (i1, ((_, _, s1) as r1)) =
+               if fuel = 0 then (i1, r1) else
+               match List.find_opt (fun (j, (aj, _, sj)) -> j <> i1 && hi.(j) - hi.(i1) <= 48 && try_ s1 aj = None && try_ sj (fst (instance i1)) <> None) enabled with
+               | Some c -> refine (fuel - 1) c
+               | None -> (i1, r1) in
+             let (ib, ((_, kb, _) as rb)) = refine (List.length enabled) (i1, r1) in
+             push ib kb (List.filter (fun j -> j <> ib) (List.map fst enabled)); apply ib rb
+           | [] ->
+             if !nback < 5 && Sys.getenv_opt "RQ_DEBUG" <> None then begin
+               Printf.eprintf "dead end %d: done %d minhi %d state %s\n" !nback !ndone mh (show !state);
+               List.iter (fun i -> Printf.eprintf "   blocked: pos %d tid %d id %d code %d key %d lo %d hi %d\n" i tid_of.(i) (int_of_z acts.(i).r_id)
+                             (int_of_z acts.(i).r_code) keys.(i) lo.(i) hi.(i)) cands
              end;
-             incr nback; backtrack ())
+             incr nback;
+             if not (backjump cands) then backtrack ())
       end
     end
   done;
-  if !result = Some true then (List.rev !order, true) else (List.rev !best_order, false)
+  if Sys.getenv_opt "RQ_DEBUG" <> None then Printf.eprintf "search: steps %d dead ends %d jumps %d done %d / %d  cpu %.2fs tries %d in %.2fs\n" !steps !nback !njump !ndone n (Sys.time ()) !ntry !ttry;
+  if !result = Some true then (List.rev_map snd !order, true) else (List.rev_map snd !best_order, false)
 
 (* whole-run replay: "R <tid> <kind> <creates...>" starts a thread, "F <stamp> <event fields>" appends an event (stamps are
    already doubled by the caller so that synthetic events fit in between), "." ends it; "G <oc> <p0> <window>" abstracts
@@ -189,24 +257,32 @@ let () =
           let all = List.concat (List.map (fun (_, _, _, acts) -> List.map (fun (k, a) -> (int_of_z k, a)) acts) per) in
           let sorted = List.stable_sort (fun (k1, _) (k2, _) -> compare k1 k2) all in
           let acts = Array.of_list (List.map snd sorted) in
+          let keys = Array.of_list (List.map fst sorted) in
           let n = Array.length acts in
-          let wi = int_of_string w in
+          ignore w;
           let show = (fun s -> Printf.sprintf "head=%s tail=%s pend=%s sval=%s ksem=%s" (hex_of_z s.head) (hex_of_z s.tail) (hex_of_z s.pend) (hex_of_z s.sval) (hex_of_z s.ksem)) in
-          (* iterative widening of the displacement bound: the true order is almost the stamp order *)
-          let rec attempt ds best =
-            match ds with
-            | [] -> best
-            | d :: rest ->
-              let (found, complete) = search show (rq_try ocb) (init_state (z_of_hex p0)) acts 24 d (6 * n + 20000) in
-              if complete then (found, true, d)
-              else let (bf, _, _) = best in attempt rest (if List.length found > List.length bf then (found, false, d) else best) in
-          let (found, complete, dused) = attempt [4; 8; 16; 32; 64; wi] ([], false, 0) in
-          ignore dused;
+          let fp = (fun s -> Hashtbl.hash (int_of_z s.head, int_of_z s.tail, int_of_z s.pend, int_of_z s.pool, int_of_z s.sval, int_of_z s.ksem)) in
+          let workers = List.filter_map (fun (tid, kind, _, _) ->
+            if int_of_z kind = 1 then
+              (match List.find_opt (fun (_, a) -> int_of_z a.r_tid = int_of_z tid) sorted with Some (k, _) -> Some (int_of_z tid, k) | None -> None)
+            else None) !threads in
+          (* the program-point map of the model state is a chain of point updates: replace it now and then by an equal table
+             (the search only; the strict replay below runs the extracted function on the initial state) *)
+          let alltids = List.map (fun (tid, _, _, _) -> tid) !threads in
+          let compact = (fun s ->
+            let tbl = Hashtbl.create 64 in
+            List.iter (fun t -> Hashtbl.replace tbl (int_of_z t) (s.pcs t)) alltids;
+            let old = s.pcs in
+            { s with pcs = (fun t -> match Hashtbl.find_opt tbl (int_of_z t) with Some p -> p | None -> old t) }) in
+          let (found, complete) = search fp show compact (rq_try ocb) (init_state (z_of_hex p0)) acts keys workers (20 * n + 100000) in
           (* the order found first, then whatever is left in stamp order: RootQR.replay executes it strictly *)
-          let used = Array.make n false in
-          List.iter (fun i -> used.(i) <- true) found;
-          let rest = List.filter (fun i -> not used.(i)) (List.init n (fun i -> i)) in
-          let final = List.map (fun i -> acts.(i)) (found @ rest) in
+          let final =
+            if complete then found
+            else begin
+              let used = Hashtbl.create 1024 in
+              List.iter (fun a -> Hashtbl.replace used (int_of_z a.r_tid, int_of_z a.r_id, int_of_z a.r_code) ()) found;
+              found @ List.filter (fun a -> not (Hashtbl.mem used (int_of_z a.r_tid, int_of_z a.r_id, int_of_z a.r_code))) (Array.to_list acts)
+            end in
           let res = replay ocb (z_of_hex p0) (nat_of_int 1) !chains final in
           ignore complete;
           Printf.printf "%d %d |" (List.length sorted) (List.length rejected);
